@@ -239,7 +239,7 @@ def _harness_dies(driver, cases, env, timeout):
     return p.returncode != 0, p.stderr[:1500]
 
 
-def find_crash(driver, cases, env, timeout=120):
+def find_crash(driver, cases, env, timeout=60):
     """The harness died on this case list: narrow it down to one case and a minimal prefix of its operations."""
     dies, err = _harness_dies(driver, cases, env, timeout)
     if not dies:
@@ -277,7 +277,7 @@ def _big_stack():
         pass
 
 
-def run_pipeline(driver, cases, bs, tag="run", model_driver=None, harness_env=None, timeout=3000):
+def run_pipeline(driver, cases, bs, tag="run", model_driver=None, harness_env=None, timeout=900):
     """cases: list of (header, [op lines]).  Runs implementation and model."""
     res = PipeResult()
     os.makedirs(WORK, exist_ok=True)
